@@ -204,7 +204,7 @@ def check_tree(kids: tuple, g0: tuple, g1: tuple, deep: bool) -> bool:
 						break
 				try:
 					got_anc = nodes.ancestor(p, want_tag).full_path
-				except (Errors.NodeNotFound, ValueError):
+				except Errors.NodeNotFound:  # documented; a ValueError from list.index escaped here before bbedb69
 					got_anc = None
 				if got_anc != want:
 					return False
